@@ -110,7 +110,7 @@ def facade_pairs(r, quick):
 
 
 def run():
-    chk = Check("C18", gen_steps=(translators.gen_facades,))
+    chk = Check("C18", props_modules=["GFO.Props.C18", "GFO.Gen.DriverGenCheck"], gen_steps=(translators.gen_facades, translators.gen_driver))
     chk.build_and_audit()
     r = C.rng("C18")
     quick = C.tier() != "thorough"
